@@ -11,7 +11,8 @@ REACH_TARGETS = [('common.named_vector', 'formak.common:named_vector'), ('common
 LEVEL = "exploration"
 RULE = ("ctor units: for State / Control / Calibration / Covariance / Reading classes of random filters each name "
         "is set alone to a distinctive value and located through the class's declared layout; defaults (0, unit "
-        "variance), unknown names, every wrong from_data shape, from_dict with Symbol and str keys.  twin units "
+        "variance), unknown names (unrelated, and fragments / concatenations / case variants of declared names), "
+        "boundary values, every wrong from_data shape (incl. other numbers of dimensions), from_dict with Symbol and str keys.  twin units "
         "(Python) and cpptwin units (generated C++, ASan+UBSan): a definition P, its renamed twin rho(P) (bijection "
         "onto pool names that reverses or scrambles the sort order; sensors and readings renamed too) and its "
         "permuted declaration pi(P) (other dict orders and containers) are compiled and driven with the same named "
